@@ -45,7 +45,7 @@ def context(obs):
     return f"{first['kind']}-{'during' if during else 'after'}-{last}"
 
 
-def make_sweep(P, oracle, *, plans, kinds=KINDS, decisions=DECISIONS, two=False, faults=False, re_kwargs=None, extra=None, goals_fn=None, ctx=False, updates=0, signal="sig"):
+def make_sweep(P, oracle, *, plans, kinds=KINDS, decisions=DECISIONS, two=False, faults=False, re_kwargs=None, extra=None, goals_fn=None, ctx=False, updates=0, signal="sig", suspend_kw=None):
     """Returns the harness function.  oracle(obs, case) -> list of tags."""
     Ts = [plan_T(p, re_kwargs=re_kwargs) for p in plans]
 
@@ -70,14 +70,14 @@ def make_sweep(P, oracle, *, plans, kinds=KINDS, decisions=DECISIONS, two=False,
                 case["k2"], case["r2"] = k + kk, kinds[r2i]
         fail_call = fail_status = None
         if faults:
-            f = fork_int(fk, 0, 2)  # 0 none, 1 call raises, 2 status fails
+            f = fork_int(fk, 0, 3 if faults == "attr" else 2)  # 0 none, 1 call raises, 2 status fails, 3 call raises an AttributeError subclass
             if f:
                 j = fork_range(fj, 0, ncalls - 1)
-                if f == 1:
+                if f in (1, 3):
                     fail_call = j
                 else:
                     fail_status = j
-                case["fault"] = ("call" if f == 1 else "status", j)
+                case["fault"] = ("call" if f == 1 else ("attr" if f == 3 else "status"), j)
         upd = []
         if updates:
             # signal updates at solver-chosen loop steps (the same spare symbolic integers as the fault position, which is unused here)
@@ -85,8 +85,13 @@ def make_sweep(P, oracle, *, plans, kinds=KINDS, decisions=DECISIONS, two=False,
                 us = fork_range(sym, 0, T + 2)
                 upd.append(dict(step=us, signal=signal, value=100 + ui))
             case["updates"] = [u["step"] for u in upd]
+        if suspend_kw:
+            for rq in reqs:
+                if rq["kind"] == "suspend":
+                    rq.update(suspend_kw())
+            case["prepost"] = True
         with notrace():
-            obs = sweep.run_case(corpus.CORPUS[plans[pi]], reqs, decisions[di], fail_call=fail_call, fail_status=fail_status,
+            obs = sweep.run_case(corpus.CORPUS[plans[pi]], reqs, decisions[di], fail_call=fail_call, fail_status=fail_status, fail_attr=bool(case.get("fault") and case["fault"][0] == "attr"),
                                  re_kwargs=re_kwargs, updates=upd, **(extra or {}))
             case["ctx"] = context(obs)
             tags = oracle(obs, case)
